@@ -118,7 +118,8 @@ Definition mon (m : mst) (o : op) (out : list obs) : mst * verdict :=
   | BindCall p _ _ _ => (advance m o (auth m ++ granted_seen out) (store m), [])
   | BindDelete p _ _ _ => (advance m o (revoke (revoked_seen out) (auth m)) (store m), [])
   | Disconnect p | Connect p => (advance m o (drop_peer p (auth m)) (store m), [])
-  | DiscoveryNotify p _ _ _ | DiscoveryReply p _ => (advance m o (drop_gone p (gone_seen out) (auth m)) (store m), [])
+  | DiscoveryNotify p _ _ _ => (advance m o (drop_gone p (gone_seen out) (auth m)) (store m), [])
+  | DiscoveryReply p dm => (advance m o (after_reply (w m) p dm out (auth m)) (store m), [])
   | _ => (advance m o (auth m) (store m), [])
   end.
 
